@@ -63,7 +63,7 @@ func runC04(c *Ctx) {
 	c.Rule("HIERARCHY", "each rule of a laxer breaking category is in the stricter category or all its documented implicants are", 150)
 	c.Rule("GROUPS-NEST", "fields in one WIRE_JSON compatibility group are in one WIRE compatibility group", 1)
 	c.Rule("EXEMPTION-WEAKENS", "reservation exemptions fold to 'not allowed' when both flags are false; flag tuples match the rule IDs", 8)
-	c.Rule("PREVIOUS-DRIVEN", "pair adapters drive their loops from previous indexes: elements absent from the previous image are never visited", 8)
+	c.Rule("PREVIOUS-DRIVEN", "pair adapters drive their loops from previous indexes: elements absent from the previous image are never visited", 6)
 	t := extractCheckTables(p)
 	chain := []string{"FILE", "PACKAGE", "WIRE_JSON", "WIRE"}
 	for _, sn := range []string{"V1Beta1Spec", "V1Spec", "V2Spec"} {
@@ -125,7 +125,8 @@ func runC04(c *Ctx) {
 		}
 		return out
 	}
-	wire, wj := read("fieldKindToWireCompatibilityGroup"), read("fieldKindToWireJSONCompatibilityGroup")
+	wireName, wjName := compatTableNames(p)
+	wire, wj := read(wireName), read(wjName)
 	if len(wire) < 10 || len(wj) < 10 {
 		c.Fail("GROUPS-NEST", "tables", token.NoPos, "compatibility tables not found or not literal")
 	} else {
@@ -141,7 +142,7 @@ func runC04(c *Ctx) {
 				}
 			}
 		}
-		c.Ob("GROUPS-NEST", "fieldKindToWireJSONCompatibilityGroup⊑fieldKindToWireCompatibilityGroup", pkgVarLiteral(pkH, "fieldKindToWireJSONCompatibilityGroup").Pos(), bad == "", true,
+		c.Ob("GROUPS-NEST", "wire-json-groups⊑wire-groups", pkgVarLiteral(pkH, wjName).Pos(), bad == "", true,
 			"%d same-group pairs of the WIRE_JSON table checked against the WIRE table %s", pairs, bad)
 	}
 	c.Rule("GROUPS-DOCUMENTED", "compatibility groups never merge kinds that the protobuf documentation lists as incompatible", 2)
@@ -159,24 +160,22 @@ func runC04(c *Ctx) {
 		}
 		info := fr.Info()
 		fobj := info.Defs[fr.Decl.Type.Params.List[0].Names[0]]
-		ast.Inspect(fr.Decl.Body, func(n ast.Node) bool {
-			call, ok := n.(*ast.CallExpr)
-			if !ok || identObj(info, call.Fun) != fobj {
-				return true
-			}
-			// every enclosing range loop iterates a previous collection
+		for _, site := range adapterCallbackSites(p, fr, fobj) {
+			// every enclosing range loop — in the function that invokes the callback and around the helper calls that
+			// lead there — iterates a previous collection
 			okAll, loops := true, 0
-			for cur := p.Parent(call); cur != nil && cur != fr.Decl; cur = p.Parent(cur) {
-				if rs, ok := cur.(*ast.RangeStmt); ok {
-					loops++
-					if l.L(info, rs.X) != labPrev {
-						okAll = false
+			for _, fm := range site.Frames {
+				for cur := p.Parent(fm.Node); cur != nil && cur != ast.Node(fm.Decl); cur = p.Parent(cur) {
+					if rs, ok := cur.(*ast.RangeStmt); ok {
+						loops++
+						if l.L(fm.Info, rs.X) != labPrev {
+							okAll = false
+						}
 					}
 				}
 			}
-			c.Ob("PREVIOUS-DRIVEN", fr.ID(), call.Pos(), okAll && loops > 0, true, "the callback is invoked inside %d loop(s), all ranging over previous collections: %v", loops, okAll)
-			return true
-		})
+			c.Ob("PREVIOUS-DRIVEN", fr.ID(), site.Call.Pos(), okAll && loops > 0, true, "the callback is invoked inside %d loop(s), all ranging over previous collections: %v", loops, okAll)
+		}
 	}
 	c04Extra(c)
 	c04NormaliseTotal(c)
@@ -393,6 +392,17 @@ func c04GuardedCall(p *Prog, info *types.Info, fd *ast.FuncDecl, param types.Obj
 			if x.Op == token.LAND && identObj(info, x.X) == param {
 				out = calls(x.Y)
 			}
+		case *ast.CaseClause:
+			// tagless switch form of the same chain: `case flag:`
+			for _, e := range x.List {
+				if identObj(info, e) == param {
+					for _, st := range x.Body {
+						if r := calls(st); r != "" {
+							out = r
+						}
+					}
+				}
+			}
 		}
 		return true
 	})
@@ -454,7 +464,8 @@ func c04AllNames(c *Ctx) {
 func c04GroupsDocumented(c *Ctx) {
 	p := c.P
 	pkH := p.Pkg(pkgCheckHandle)
-	if pkH == nil || pkgVarLiteral(pkH, "fieldKindToWireCompatibilityGroup") == nil || pkgVarLiteral(pkH, "fieldKindToWireJSONCompatibilityGroup") == nil {
+	wireName, wjName := compatTableNames(p)
+	if pkH == nil || wireName == "" || wjName == "" || pkgVarLiteral(pkH, wireName) == nil || pkgVarLiteral(pkH, wjName) == nil {
 		c.Fail("GROUPS-DOCUMENTED", "tables", token.NoPos, "compatibility tables not found")
 		return
 	}
@@ -478,7 +489,7 @@ func c04GroupsDocumented(c *Ctx) {
 	// mapping): kinds sharing a WIRE group share a documented wire-compatibility class, kinds sharing a WIRE_JSON group also
 	// share their JSON representation
 	kindName := func(v string) string {
-		for name, cv := range enumConstants(pkH.TypesInfo.TypeOf(pkgVarLiteral(pkH, "fieldKindToWireCompatibilityGroup")).Underlying().(*types.Map).Key()) {
+		for name, cv := range enumConstants(pkH.TypesInfo.TypeOf(pkgVarLiteral(pkH, wireName)).Underlying().(*types.Map).Key()) {
 			if cv.ExactString() == v {
 				return name
 			}
@@ -497,7 +508,7 @@ func c04GroupsDocumented(c *Ctx) {
 		"BoolKind": "bool", "StringKind": "string", "BytesKind": "base64", "DoubleKind": "float", "FloatKind": "float",
 		"GroupKind": "object", "MessageKind": "object", "EnumKind": "enum-name",
 	}
-	checkTable := func(name string, tbl map[string]string, oracles ...map[string]string) {
+	checkTable := func(name, varName string, tbl map[string]string, oracles ...map[string]string) {
 		bad := ""
 		for _, a := range sortedKeys(tbl) {
 			for _, b := range sortedKeys(tbl) {
@@ -512,11 +523,70 @@ func c04GroupsDocumented(c *Ctx) {
 				}
 			}
 		}
-		c.Ob("GROUPS-DOCUMENTED", name, pkgVarLiteral(pkH, name).Pos(), bad == "", true, "no group of %s merges kinds with different documented encodings %s", name, bad)
+		c.Ob("GROUPS-DOCUMENTED", name, pkgVarLiteral(pkH, varName).Pos(), bad == "", true, "no group of %s (%s) merges kinds with different documented encodings %s", name, varName, bad)
 	}
-	wire, wj := read("fieldKindToWireCompatibilityGroup"), read("fieldKindToWireJSONCompatibilityGroup")
+	wire, wj := read(wireName), read(wjName)
 	if len(wire) >= 10 && len(wj) >= 10 {
-		checkTable("fieldKindToWireCompatibilityGroup", wire, wireClass)
-		checkTable("fieldKindToWireJSONCompatibilityGroup", wj, wireClass, jsonRepr)
+		checkTable("wire-groups", wireName, wire, wireClass)
+		checkTable("wire-json-groups", wjName, wj, wireClass, jsonRepr)
 	}
+}
+
+
+// compatTableNames finds the wire and wire+JSON compatibility-group tables of the breaking handlers by what they
+// are (package-level map[protoreflect.Kind]… literals) and by who uses them (the handlers registered for
+// FIELD_WIRE_COMPATIBLE_TYPE and FIELD_WIRE_JSON_COMPATIBLE_TYPE), not by their names.
+var compatTableCache = map[*Prog][2]string{}
+
+func compatTableNames(p *Prog) (wire, wireJSON string) {
+	if v, ok := compatTableCache[p]; ok {
+		return v[0], v[1]
+	}
+	defer func() { compatTableCache[p] = [2]string{wire, wireJSON} }()
+	pkH := p.Pkg(pkgCheckHandle)
+	if pkH == nil {
+		return "", ""
+	}
+	info := pkH.TypesInfo
+	cands := map[types.Object]bool{}
+	scope := pkH.Types.Scope()
+	for _, name := range scope.Names() {
+		v, ok := scope.Lookup(name).(*types.Var)
+		if !ok {
+			continue
+		}
+		mt, ok := v.Type().Underlying().(*types.Map)
+		if !ok || namedName(mt.Key()) != "Kind" || !strings.HasSuffix(namedPath(mt.Key()), "protoreflect.Kind") {
+			continue
+		}
+		if pkgVarLiteral(pkH, name) != nil {
+			cands[v] = true
+		}
+	}
+	t := extractCheckTables(p)
+	usedBy := func(ruleID string) string {
+		for _, b := range t.ByID[ruleID] {
+			hb := t.Handlers[b.HandlerVar]
+			if hb == nil || hb.Func == nil {
+				continue
+			}
+			fr := p.DeclOf(hb.Func)
+			if fr == nil || fr.Decl.Body == nil {
+				continue
+			}
+			found := ""
+			deepInspect(p, fr, 1, func(n ast.Node, ninfo *types.Info) bool {
+				if id, ok := n.(*ast.Ident); ok && cands[ninfo.Uses[id]] {
+					found = id.Name
+				}
+				return true
+			})
+			if found != "" {
+				return found
+			}
+		}
+		return ""
+	}
+	_ = info
+	return usedBy("FIELD_WIRE_COMPATIBLE_TYPE"), usedBy("FIELD_WIRE_JSON_COMPATIBLE_TYPE")
 }
